@@ -160,6 +160,7 @@ var (
 	reHexAddr = regexp.MustCompile(`0x[0-9a-fA-F]{5,}`)
 	reLongHex = regexp.MustCompile(`[0-9a-fA-F]{24,}`)
 	reGorout  = regexp.MustCompile(`goroutine \d+`)
+	reTime    = regexp.MustCompile(`\d{4}-\d\d-\d\d[ T]\d\d:\d\d:\d\d(\.\d+)?( [+-]\d{4})?( [A-Z]{3,4})?( m=[+-][\d.]+)?`)
 )
 
 // stripVolatile removes addresses and long hex strings from a message.
@@ -167,6 +168,7 @@ func stripVolatile(s string) string {
 	s = reHexAddr.ReplaceAllString(s, "0x?")
 	s = reLongHex.ReplaceAllString(s, "<hex>")
 	s = reGorout.ReplaceAllString(s, "goroutine N")
+	s = reTime.ReplaceAllString(s, "<time>")
 	if len(s) > 600 {
 		s = s[:600] + "..."
 	}
